@@ -117,10 +117,69 @@ class C03(DiffProperty):
                 k = idx + 1
         return r
 
+    RING_OPS = {"rraw": "raw", "rrecv": "recv", "rpeek": "peek", "rpeekn": "peekn"}
+
+    def ring_verdict(self, r):
+        """ring family (mpt_queue_recv / mpt_queue_peek on arbitrary bytes, harness/c02_stream.c against the ring-level model of
+        coq/Cobs/QueueCodec.v): correspondence token by token; specification as for the flat decoder: no fault, and the delivered
+        messages are, in order, a subsequence of the reference decodings of the well-formed frames put into the ring so far"""
+        it, st = r["I"], r["S"]
+        r["spec"] = None
+        if it is None or st is None:
+            return r
+        k = 0
+        for j in range(len(it)):
+            a = it[j].split("#")[0]
+            if a.startswith("F") or "|" not in a:
+                r["spec"] = (j, a, "no fault")
+                break
+            msgs = a.rsplit("|", 1)[0]
+            if msgs == "-":
+                continue
+            b = st[j] if j < len(st) else "L:"
+            frames = b[2:].split(",") if len(b) > 2 else []
+            for m in msgs.split(","):
+                idx = None
+                for q in range(k, len(frames)):
+                    if frames[q] == m:
+                        idx = q
+                        break
+                if idx is None:
+                    r["spec"] = (j, a, "a message among the reference decodings %s of the remaining frames" % ",".join(frames[k:][:6]))
+                    break
+                k = idx + 1
+            if r["spec"]:
+                break
+        return r
+
+    def evaluate(self, cases, workdir, tagsuffix=""):
+        """flat decoder cases: harness c03_decode.c against DecModel.v; ring cases (R ...): delegated to the ring-level harness and
+        model of the C02 check (the same binaries), with the C03 verdict"""
+        import c02
+        flat = [(i, c) for i, c in enumerate(cases) if not c.startswith("R ")]
+        ring = [(i, c) for i, c in enumerate(cases) if c.startswith("R ")]
+        res = [None] * len(cases)
+        errs = []
+        if flat:
+            rr, e = super().evaluate([c for _, c in flat], workdir, tagsuffix)
+            errs += e
+            for (i, _), r in zip(flat, rr):
+                res[i] = r
+        if ring:
+            tr = []
+            for _, c in ring:
+                t = c.split()
+                tr.append(" ".join([t[1], "8", "0", t[2], t[3]] + [self.RING_OPS.get(x, x) for x in t[4:]]))
+            rr, e = c02.PROP.evaluate(tr, workdir, tagsuffix + "ring")
+            errs += e
+            for (i, _), r in zip(ring, rr):
+                res[i] = self.ring_verdict(r)
+        return res, errs
+
     def split(self, case):
         t = case.split()
         hdr, rest = t[:4], t[4:]
-        ar = {"vis": 1, "dec": 0, "peek": 0, "reset": 0, "size": 1}
+        ar = {"vis": 1, "dec": 0, "peek": 0, "reset": 0, "size": 1, "rraw": 1, "rrecv": 0, "rpeek": 1, "rpeekn": 1}
         ops = []
         i = 0
         while i < len(rest):
@@ -241,6 +300,55 @@ class C03(DiffProperty):
             if rng.random() < 0.05:
                 ops.insert(rng.randrange(len(ops) + 1) // 1, "reset") if False else None
             cases.append(" ".join([str(v), str(slack), rng.choice(LAYOUTS), hx(stream)] + ops))
+        # ring level: mpt_queue_recv (incl. its MissingBuffer recovery) and mpt_queue_peek on rings of small capacities and
+        # arbitrary offsets, fed with valid frames (long ZPE messages whose decoded part exceeds the 256-byte move chunks,
+        # frames that wrap), mutated frames and arbitrary bytes, in arbitrary pieces, with peeks (with and without target) between
+        nr = 1500 if tier == "quick" else 30000
+        for i in range(nr):
+            v = i % 4
+            rcap = rng.choice([8, 12, 16, 17, 24, 32, 40, 64, 100, 300])
+            roff = rng.randrange(0, rcap) if rng.random() < 0.7 else 0
+            stream = []
+            kind = rng.random()
+            for _ in range(rng.choice([1, 2, 3])):
+                if kind < 0.25 and v >= 2:
+                    # long ZPE message: a long zero-free head, then zero pairs (the decoder runs out of scratch space late)
+                    m = [rng.randrange(1, 256) for _ in range(rng.choice([200, 222, 223, 260, 300, 520]))]
+                    for _ in range(rng.choice([2, 5, 10, 30])):
+                        m += [rng.randrange(1, 256)] * rng.choice([0, 1, 2]) + [0, 0]
+                else:
+                    n = rng.choice([0, 1, 2, 3, 5, 9, 20, 60])
+                    m = [0 if rng.random() < 0.3 else rng.randrange(1, 256) for _ in range(n)]
+                f = py_cobs(m, v) + [0]
+                if rng.random() < 0.3 and f:
+                    k = rng.randrange(len(f))
+                    c = rng.random()
+                    if c < 0.4:
+                        f[k] = rng.choice(BOUND)
+                    elif c < 0.7:
+                        f.insert(k, rng.choice(BOUND))
+                    else:
+                        del f[k]
+                stream += f
+            if kind > 0.85:
+                stream = [rng.choice(BOUND + [0, 0, 1, 2]) for _ in range(rng.choice([1, 3, 8, 20]))]
+            ops = []
+            pos = 0
+            while pos < len(stream):
+                step = rng.choice([1, 1, 2, 3, 7, 16, 64, len(stream)])
+                piece = stream[pos:pos + step]
+                pos += step
+                ops += ["rraw", hx(piece)]
+                for _ in range(rng.choice([0, 1, 1, 2])):
+                    r = rng.random()
+                    if r < 0.7:
+                        ops += ["rrecv"]
+                    elif r < 0.85:
+                        ops += ["rpeek", str(rng.choice([0, 1, 4, 13, 64, 600]))]
+                    else:
+                        ops += ["rpeekn", str(rng.choice([0, 1, 13, 600]))]
+            ops += ["rrecv"] * rng.choice([2, 3, 5])
+            cases.append(" ".join(["R", str(v), str(rcap), str(roff)] + ops))
         return cases
 
 PROP = C03()
